@@ -41,6 +41,8 @@ type harnessOpt struct {
 	DelayBound *int `json:"delay_bound"`
 	GoOrder    bool `json:"go_order"` // reference order = single-P Go runtime (runnext, then FIFO)
 	MaxPaths   int  `json:"max_paths"`
+	// NoSleepSets: explore this harness without the sleep-set reduction
+	NoSleepSets bool `json:"no_sleep_sets"`
 }
 
 // violation filter: a rig shared by several properties labels its assertions
@@ -219,6 +221,9 @@ func cmdCheck(args []string) int {
 				hcfg.PreemptionBound = -1
 			}
 			hcfg.GoOrder = ho.GoOrder
+			if ho.NoSleepSets {
+				hcfg.SleepSets = false
+			}
 			if ho.MaxPaths > 0 {
 				hcfg.MaxPaths = ho.MaxPaths
 			}
